@@ -125,6 +125,10 @@ pub enum CallSpec {
         /// by overriding the provided `is_bus_day` (make-up working days)
         #[serde(default)]
         makeup: Vec<i64>,
+        /// Some(t): the user calendar is a market with a FIRST trading day - no datetime
+        /// before t is a business day (only adjustments that have an answer are asked)
+        #[serde(default)]
+        opens_on: Option<i64>,
     },
     Csolve {
         spec: SplineSpec,
@@ -769,6 +773,7 @@ fn build_cal(c: &CalChoice) -> Result<CalType, Fail> {
 struct UserCal {
     base: CalType,
     working: Vec<chrono::NaiveDateTime>,
+    opens_on: Option<chrono::NaiveDateTime>,
 }
 
 impl DateRoll for UserCal {
@@ -782,7 +787,43 @@ impl DateRoll for UserCal {
         self.base.is_settlement(date)
     }
     fn is_bus_day(&self, date: &chrono::NaiveDateTime) -> bool {
+        if let Some(t) = &self.opens_on {
+            if date < t {
+                return false;
+            }
+        }
         self.working.contains(date) || (self.is_weekday(date) && !self.is_holiday(date))
+    }
+}
+
+impl UserCal {
+    /// Is there a business day within 400 days of `d` in the given direction (inclusive)?
+    fn has_bus_day(&self, d: &chrono::NaiveDateTime, forward: bool) -> Option<chrono::NaiveDateTime> {
+        let mut x = *d;
+        for _ in 0..400 {
+            if self.is_bus_day(&x) {
+                return Some(x);
+            }
+            x = if forward { x + chrono::Days::new(1) } else { x - chrono::Days::new(1) };
+        }
+        None
+    }
+    /// Does adjusting `d` under `m` (without settlement) have an answer on this calendar?
+    fn adjustable(&self, d: &chrono::NaiveDateTime, m: &Modifier) -> bool {
+        use chrono::Datelike;
+        match m {
+            Modifier::Act => true,
+            Modifier::F => self.has_bus_day(d, true).is_some(),
+            Modifier::P => self.has_bus_day(d, false).is_some(),
+            Modifier::ModF => match self.has_bus_day(d, true) {
+                Some(x) => x.month() == d.month() || self.has_bus_day(d, false).is_some(),
+                None => false,
+            },
+            Modifier::ModP => match self.has_bus_day(d, false) {
+                Some(x) => x.month() == d.month() || self.has_bus_day(d, true).is_some(),
+                None => false,
+            },
+        }
     }
 }
 
@@ -979,6 +1020,17 @@ fn exec_call(c: &CallSpec, obs: &mut Obs) -> Result<(), Fail> {
                     .ok()
                     .and_then(|v| v["name"].as_str().map(|x| x.to_string()))
                     .unwrap_or_default();
+                if name != s.to_lowercase() {
+                    return Err(shape_to(
+                        "Ccy::try_new",
+                        format!(
+                            "Ccy::try_new({:?}) returned a currency named {:?}; the constructor converts names to lower case ({:?})",
+                            s,
+                            name,
+                            s.to_lowercase()
+                        ),
+                    ));
+                }
                 if name.len() != 3 {
                     return Err(shape_to(
                         "Ccy::try_new",
@@ -1003,12 +1055,12 @@ fn exec_call(c: &CallSpec, obs: &mut Obs) -> Result<(), Fail> {
                     v[0]["name"].as_str().unwrap_or("").to_string(),
                     v[1]["name"].as_str().unwrap_or("?").to_string(),
                 );
-                if l == r {
+                if l == r || l != a.to_lowercase() || r != b.to_lowercase() {
                     return Err(shape_to(
                         "FXPair::try_new",
                         format!(
-                            "FXPair::try_new({:?}, {:?}) returned a pair of the currency {:?} with itself",
-                            a, b, l
+                            "FXPair::try_new({:?}, {:?}) returned the pair ({:?}, {:?}): not two distinct currencies under their lower-case names",
+                            a, b, l, r
                         ),
                     ));
                 }
@@ -1073,6 +1125,7 @@ fn exec_call(c: &CallSpec, obs: &mut Obs) -> Result<(), Fail> {
             roll,
             counts,
             makeup,
+            opens_on,
         } => {
             // a calendar name the constructor refuses gives no date arithmetic to sweep
             // (whether the refusal is right is C06's business, not this property's)
@@ -1093,14 +1146,38 @@ fn exec_call(c: &CallSpec, obs: &mut Obs) -> Result<(), Fail> {
                 RollSpec::Imm => RollDay::IMM {},
             };
             if d.and_utc().timestamp() < 0 || d.and_utc().timestamp() > 7_289_654_400 {
-                obs.count("reach.month_addition_from_outside_1970_2200");
+                obs.count(if *func == DateFn::AddMonths {
+                    "reach.month_addition_from_outside_1970_2200"
+                } else {
+                    "reach.adjustment_at_the_ends_of_the_representable_dates"
+                });
             }
-            if makeup.is_empty() {
+            if let Some(t) = opens_on {
+                // a market with a first trading day: only Roll / AddDays without settlement,
+                // and only the calls that have an answer (a business day in every direction
+                // the rule may need)
+                let user = UserCal {
+                    base: cal,
+                    working: vec![],
+                    opens_on: Some(ts_to_ndt(*t)),
+                };
+                if *settlement || !matches!(func, DateFn::Roll | DateFn::AddDays) {
+                    return Ok(());
+                }
+                let ok: Vec<i32> = counts
+                    .iter()
+                    .cloned()
+                    .filter(|c| user.adjustable(&(d + chrono::Duration::days(*c as i64)), &m))
+                    .collect();
+                obs.count_n("reach.adjustments_on_a_calendar_with_a_first_trading_day", ok.len() as u64);
+                sweep_dates(&user, d, m, r, false, func, &ok, roll, obs, &panic_to)?;
+            } else if makeup.is_empty() {
                 sweep_dates(&cal, d, m, r, *settlement, func, counts, roll, obs, &panic_to)?;
             } else {
                 let user = UserCal {
                     base: cal,
                     working: makeup.iter().map(|t| ts_to_ndt(*t)).collect(),
+                    opens_on: None,
                 };
                 if user.working.contains(&d) && !(user.is_weekday(&d) && !user.is_holiday(&d)) {
                     obs.count("reach.user_calendar_started_on_a_make_up_working_day");
@@ -1562,12 +1639,40 @@ fn emit_calls(seed: u64, tier: Tier, unit: u64, sink: &mut dyn FnMut(Plan) -> bo
             } else {
                 vec![]
             };
+            // adjustment at the very ends of the representable dates, in the direction that
+            // has an answer (forward rules at the earliest days, backward rules at the latest)
+            let (date, allowed): (i64, Option<[u8; 3]>) =
+                if func == DateFn::Roll && !giant.get() && r.chance(0.05) {
+                    let epoch = chrono::NaiveDate::from_ymd_opt(1970, 1, 1).unwrap();
+                    let lo = (chrono::NaiveDate::MIN - epoch).num_days();
+                    let hi = (chrono::NaiveDate::MAX - epoch).num_days();
+                    if r.chance(0.5) {
+                        ((lo + r.i64_in(0, 2)) * 86_400, Some([0, 1, 2]))
+                    } else {
+                        ((hi - r.i64_in(0, 2)) * 86_400, Some([0, 3, 4]))
+                    }
+                } else {
+                    (date, None)
+                };
+            let opens_on: Option<i64> = if !giant.get()
+                && matches!(func, DateFn::Roll | DateFn::AddDays)
+                && r.chance(0.08)
+            {
+                Some((date_day + r.i64_in(-3, 25)) * 86_400)
+            } else {
+                None
+            };
             for modifier in 0..5u8 {
                 if func != DateFn::AddDays && func != DateFn::Roll && modifier > 0 {
                     break;
                 }
                 if giant.get() && modifier > 0 && modifier != (unit / 10 % 4) as u8 + 1 {
                     continue;
+                }
+                if let Some(a) = &allowed {
+                    if !a.contains(&modifier) {
+                        continue;
+                    }
                 }
                 for settlement in [false, true] {
                     if !sink(Plan::Call(CallSpec::DateSweep {
@@ -1579,6 +1684,7 @@ fn emit_calls(seed: u64, tier: Tier, unit: u64, sink: &mut dyn FnMut(Plan) -> bo
                         roll: RollSpec::Unspecified,
                         counts: counts.clone(),
                         makeup: makeup.clone(),
+                        opens_on,
                     })) {
                         return;
                     }
@@ -1656,6 +1762,7 @@ fn emit_calls(seed: u64, tier: Tier, unit: u64, sink: &mut dyn FnMut(Plan) -> bo
                     roll,
                     counts: counts.clone(),
                     makeup: vec![],
+                    opens_on: None,
                 })) {
                     return;
                 }
@@ -1704,6 +1811,23 @@ fn emit_calls(seed: u64, tier: Tier, unit: u64, sink: &mut dyn FnMut(Plan) -> bo
         }
         7 => {
             // currency, pair and named-calendar strings
+            // first, in the same process: documents that hold currency codes in another
+            // spelling than the constructors would give them (whatever the loader makes of
+            // such a document must not change what the constructors return afterwards)
+            if let Ok(doc) = FXRate::try_new("usd", "nok", Number::F64(1.5), None)
+                .and_then(|q| FXRates::try_new(vec![q], None))
+                .map_err(|e| e.to_string())
+                .and_then(|m| m.to_json().map_err(|e| e.to_string()))
+            {
+                for spelled in ["USD", "UsD", "Usd"] {
+                    sink(Plan::Load {
+                        loader: "FXRates".into(),
+                        text: doc.replace("\"usd\"", &format!("\"{}\"", spelled)),
+                        fault: "VALUE_ALTER".into(),
+                        origin: format!("a one-quote market usdnok with usd spelled {}", spelled),
+                    });
+                }
+            }
             for a in ODD_CCY {
                 sink(Plan::Call(CallSpec::Ccy(a.to_string())));
                 for b in ODD_CCY.iter() {
@@ -2080,6 +2204,7 @@ pub fn shrink(plan: &Plan) -> Vec<Plan> {
                     roll,
                     counts,
                     makeup,
+                    opens_on,
                 } => {
                     if !makeup.is_empty() {
                         cs.push(CallSpec::DateSweep {
@@ -2091,6 +2216,7 @@ pub fn shrink(plan: &Plan) -> Vec<Plan> {
                             roll: roll.clone(),
                             counts: counts.clone(),
                             makeup: vec![],
+                            opens_on: *opens_on,
                         });
                         if makeup.len() > 1 {
                             for i in 0..makeup.len() {
@@ -2105,6 +2231,7 @@ pub fn shrink(plan: &Plan) -> Vec<Plan> {
                                     roll: roll.clone(),
                                     counts: counts.clone(),
                                     makeup: mk,
+                            opens_on: *opens_on,
                                 });
                             }
                         }
@@ -2121,6 +2248,7 @@ pub fn shrink(plan: &Plan) -> Vec<Plan> {
                                 roll: roll.clone(),
                                 counts: part.to_vec(),
                                 makeup: makeup.clone(),
+                            opens_on: *opens_on,
                             });
                         }
                     }
@@ -2134,6 +2262,7 @@ pub fn shrink(plan: &Plan) -> Vec<Plan> {
                             roll: roll.clone(),
                             counts: counts.clone(),
                             makeup: makeup.clone(),
+                            opens_on: *opens_on,
                         });
                     }
                     if *settlement {
@@ -2146,6 +2275,7 @@ pub fn shrink(plan: &Plan) -> Vec<Plan> {
                             roll: roll.clone(),
                             counts: counts.clone(),
                             makeup: makeup.clone(),
+                            opens_on: *opens_on,
                         });
                     }
                     if *modifier != 0 {
@@ -2158,6 +2288,7 @@ pub fn shrink(plan: &Plan) -> Vec<Plan> {
                             roll: roll.clone(),
                             counts: counts.clone(),
                             makeup: makeup.clone(),
+                            opens_on: *opens_on,
                         });
                     }
                 }
